@@ -484,5 +484,5 @@ func relay15Run(c *hx.Ctx) {
 	L.cw.Add(hx.App("RelayE2E_corr.CView", hx.N(uint64(len(L.seen))), hx.N(uint64(len(L.markers))), hx.N(uint64(leak)), hx.N(uint64(rtun))), "relay-view", true,
 		map[string]any{"datagrams_seen_by_relay": len(L.seen), "plaintext_markers": len(L.markers), "markers_found_in_relay_view": leak, "packets_on_relay_tun": rtun})
 	L.cw.Meta("relay_sessions", rounds+1)
-	L.cw.Close("a malicious relay between real nodes: rewritten / truncated / spliced / re-encrypted / replayed payloads re-wrapped in valid relay packets, payloads forwarded under the other peer's relay record, relay tunnels torn down and re-established with old-session packets replayed; every byte the relay received searched for the plaintext markers; non-trivial = the payload was delivered")
+	L.cw.Close("a malicious relay between real nodes: rewritten / truncated / spliced / re-encrypted / replayed payloads re-wrapped in valid relay packets, payloads forwarded under the other peer's relay record, relay tunnels torn down and re-established with old-session packets replayed; sessions of end-to-end frames delivered in adversarial orders over both paths (relay packet, frame wrapped again by the relay, bare inner frame sent directly from an arbitrary address): one counter delivered at most once whatever the path, refused copies do not roam; every byte the relay received searched for the plaintext markers; non-trivial = the payload was delivered")
 }
